@@ -132,7 +132,7 @@ func genC15Case() *rapid.Generator[C15Case] {
 				// fits the global default but not this route's own max_body
 				invalidAt[i] = "payload-over-route-limit"
 			}
-			it.Hdr = rapid.IntRange(0, 3).Draw(t, "hdr")
+			it.Hdr = rapid.IntRange(0, 4).Draw(t, "hdr")
 			it.TS = rapid.SampledFrom([]int{0, 0, 1, 2}).Draw(t, "ts")
 			it.Invalid = invalidAt[i]
 			c.Items = append(c.Items, it)
@@ -149,6 +149,9 @@ func c15Headers(v int) map[string]string {
 		return map[string]string{"X-A": "1", "x-lower": "v"}
 	case 3:
 		return map[string]string{"X-Utf8": "héllo"}
+	case 4:
+		// blanks and tabs are legal anywhere in a field value and are stored as sent
+		return map[string]string{"X-Pad": " v\t", "X-Tab": "a\tb"}
 	}
 	return nil
 }
@@ -276,7 +279,10 @@ func c15Build(c C15Case) (items []map[string]any, invalid map[int]string) {
 			names := []string{"bad name", "X-\x7f", "X-\u4e2d", "\u0141", "\u2030name", "X-\u00e9", "a:b", "(x)"}
 			m["headers"] = map[string]string{names[(i+it.PayLen+it.Hdr+it.TS)%len(names)]: "v"}
 		case "bad-header-value":
-			m["headers"] = map[string]string{"X-A": "a\r\nInjected: 1"}
+			// CR, LF, DEL and every control byte except HTAB are not allowed in a field value - wherever
+			// they stand (seed C15-13 trimmed the value before looking at it)
+			vals := []string{"a\r\nInjected: 1", "push\r\n", "\nv", "v\x0b", "\x0cv", "v\x7f", "\x00", "a\x01b", "v\r", "\r", " v\n ", "\x1f"}
+			m["headers"] = map[string]string{"X-A": vals[(i+it.PayLen+it.Hdr+it.TS)%len(vals)]}
 		case "bad-received-at":
 			m["received_at"] = "yesterday"
 		case "bad-next-run-at":
